@@ -140,6 +140,19 @@ def rRawAll : Nat → Bytes → Option (List Bytes)
       | none => none
     | none => none
 
+/-- size of the buffer `Stream.Bytes()` allocates (`make([]byte, size)`) on this input; 0 when it returns before. -/
+def rBytesAlloc (bs : Bytes) : Nat :=
+  match readHead bs with
+  | .ok (.str n rest) => if rest.length < n then 0 else n
+  | _ => 0
+
+/-- size of the buffer `Stream.Raw()` allocates (`make([]byte, headsize(size)+size)`); 0 when it returns before. -/
+def rRawAlloc (bs : Bytes) : Nat :=
+  match readHead bs with
+  | .ok (.str n rest) => if rest.length < n then 0 else (header 0x80 n).length + n
+  | .ok (.list n rest) => if rest.length < n then 0 else (header 0xC0 n).length + n
+  | _ => 0
+
 /-- `ListEnd`: the list payload must be used up. -/
 def atEnd {α : Type} (a : α) (rest : Bytes) : Option α := if rest = [] then some a else none
 
